@@ -4,7 +4,7 @@
 From Coq Require Import ZArith NArith List String.
 From LV Require Import Base.Conc Base.Events Base.Lin Spec.Specs Model.Feldman Proofs.FeldmanStepInv Proofs.FeldmanStepSafe Proofs.FeldmanStepThm.
 From LV Require Import Model.SplitList Proofs.SplitListInv Proofs.PartitionLin Proofs.FeldmanLinInv Proofs.FeldmanLinSafe.
-From LV Require Model.MichaelList Model.Product Model.MichaelSet Proofs.MichaelListProofs Proofs.MichaelSetProofs.
+From LV Require Model.MichaelList Model.Product Model.MichaelSet Proofs.MichaelListProofs Proofs.MichaelSetProofs Proofs.MichaelSetShape Proofs.MichaelSetHist Proofs.MichaelSetLin.
 Import ListNotations.
 
 (** [data_at g a i p]: item p sits in slot i of array node a, reachable from the head array (a slot in the "converting"
@@ -235,19 +235,47 @@ Proof.
 Qed.
 Print Assumptions C14_michaelset_bucket_linearizable.
 
-(** the composed statement: NOT proved.  [untagP] forgets the bucket tags; the history of the whole set is C13's history
-    function applied to the untagged product trace.  Available: every bucket's history is LP-valid (above) and LP-valid
-    bucket projections of a per-thread sequential annotated trace make the whole trace LP-valid ([C14_partition_linearizable_lp]).
-    Missing glue: (a) the product trace is per-thread sequential across buckets and its history projects bucket-wise onto
-    [full_hist (projb b ..)] (needs a syntactic "one invoke, then one response" lemma for MichaelList.run_op and the
-    commutation of C13's history fold - which deletes the invocation of a failed unlink - with the projection), (b) weaving
-    the per-bucket annotated traces into one annotated trace of the whole history. *)
-Definition untagP (tr : list (nat * (nat * ev))) : list (nat * ev) := map (fun x => (fst x, snd (snd x))) tr.
-Definition michaelset_linearizable_statement : Prop :=
+(** The whole set.  [untagP] forgets the bucket tags; the history of the whole set is C13's history function
+    [MichaelListProofs.full_hist] (all operations with their results, reads included; an unlink that returned false is
+    dropped, as in C13) applied to the untagged product trace.  For every number of buckets > 0, every hash table, every
+    client program (all ten operation codes) and EVERY schedule this history is the history of an LP-annotated trace
+    valid for the sequential set, hence linearizable: no key is ever held twice, every result is the result of the
+    sequential set operation at a point between invocation and response.  Proof = the bucket theorem above
+    + the shape of the hash set's history (Proofs/MichaelSetHist.v: sequential per thread across buckets, every
+    invocation tagged with the bucket of its key, the sub-history with tag [b] = the history of bucket [b]; obtained with
+    the proof rule Conc.safe from the syntactic "one invocation, then one response" shape of MichaelList.run_op,
+    Proofs/MichaelSetShape.v) + LP-level locality ([PartitionLin.weave_valid]: the buckets' annotated traces weave into
+    one annotated trace of the whole history). *)
+Definition untagP (tr : list (nat * (nat * ev))) : list (nat * ev) := MichaelSetHist.untag tr.
+Theorem C14_michaelset_linearizable :
   forall (nb : nat) (hs : list Z), 0 < nb ->
   forall (fuel sf : nat) (ic : bool) (ths : list (list (list Z))) c,
     Conc.reach (MichaelSet.init_cfgP nb hs fuel sf ic ths) c ->
+    (exists atr, lp_valid SetSpec atr /\ erase atr = MichaelListProofs.full_hist (untagP (Conc.trace c))) /\
     linearizable SetSpec (MichaelListProofs.full_hist (untagP (Conc.trace c))).
+Proof.
+  intros nb hs Hnb fuel sf ic ths c Hr. split.
+  - exact (MichaelSetLin.michaelset_linearizable_lp nb hs Hnb fuel sf ic ths c Hr).
+  - exact (MichaelSetLin.michaelset_linearizable nb hs Hnb fuel sf ic ths c Hr).
+Qed.
+Print Assumptions C14_michaelset_linearizable.
+
+(** LP-level locality used above, as a statement of its own: a tagged history that is sequential per thread, whose
+    invocations carry the bucket of their key and whose every bucket sub-history has a valid LP annotation, has one. *)
+Theorem C14_partition_weave :
+  forall (bucket : Z -> nat) (gl : list (nat * hev SetSpec)) (atrs : nat -> list (aev SetSpec)),
+    hseq bucket (fun _ => false) gl ->
+    (forall b, lp_valid SetSpec (atrs b) /\ erase (atrs b) = hfilter b gl) ->
+    exists ATR, lp_valid SetSpec ATR /\ erase ATR = map snd gl.
+Proof. exact weave_valid. Qed.
+Print Assumptions C14_partition_weave.
+
+(** the history functions ignore nothing of an operation: the shape theorem for MichaelList.run_op (every fuel, every
+    argument list) *)
+Theorem C14_michaellist_op_shape :
+  forall fuel sf ic t o ls, MichaelSetShape.opshape o (MichaelList.run_op fuel sf ic t o ls).
+Proof. exact MichaelSetShape.run_op_shape. Qed.
+Print Assumptions C14_michaellist_op_shape.
 
 (** non-vacuity: a 2-bucket run in which two threads insert into different buckets and then look up each other's key *)
 Example C14_michaelset_nonvacuous :
@@ -258,10 +286,9 @@ Example C14_michaelset_nonvacuous :
   lincheck SetSpec (MichaelListProofs.full_hist (untagP (Conc.trace c))) = true.
 Proof. vm_compute. repeat split. Qed.
 
-(** history-level locality (Herlihy-Wing) and the composed statement for MichaelHashSet: NOT proved.  What is proved is
-    the LP-level composition above, which is the form in which C13 delivers its result ([lp_valid] traces of the list
-    model); what is missing is (a) a MichaelHashSet model whose trace projects bucket-wise onto MichaelList traces and
-    (b) C13's read-side linearization points (C13 proves the updates only). *)
+(** history-level locality (Herlihy-Wing: from linearizable bucket sub-histories, without annotated traces): NOT proved and
+    not needed for MichaelHashSet, whose buckets come with annotated traces (the form in which C13 delivers its result);
+    it would need the converse of [lp_valid_linearizable]. *)
 Fixpoint hproj (bucket : Z -> nat) (b : nat) (cur : nat -> option nat) (h : history SetSpec) : history SetSpec :=
   match h with
   | [] => []
